@@ -310,11 +310,25 @@ def parser_modules(F: Facts) -> Tuple[Module, Module, Dict[str, Any]]:
     fi = F.func(q)
     rules_m = lex_m = None
     info: Dict[str, Any] = {}
-    for n in ast.walk(fi.node):
+    # the constructor itself, or a helper / helper class of the same module that it delegates the construction to
+    nodes = list(ast.walk(fi.node))
+    if not any(isinstance(n, ast.Call) and F.resolve_expr(fi.module, n.func) in (('ext', 'smartquery.ply.yacc.yacc'), ('ext', 'smartquery.ply.lex.lex'))
+               for n in nodes):
+        nodes = list(ast.walk(fi.module.tree))
+    for n in nodes:
         if isinstance(n, ast.Call):
             r = F.resolve_expr(fi.module, n.func)
             if r == ('ext', 'smartquery.ply.yacc.yacc') or r == ('ext', 'smartquery.ply.lex.lex'):
                 kw = {k.arg: k.value for k in n.keywords if k.arg}
+                for k_ in n.keywords:
+                    if k_.arg is None and isinstance(k_.value, ast.Name):
+                        # lex.lex(module=lexer, **ply_options): options kept in a local / module-level dict(...) display
+                        for a_ in ast.walk(fi.module.tree):
+                            if isinstance(a_, ast.Assign) and any(isinstance(t_, ast.Name) and t_.id == k_.value.id for t_ in a_.targets):
+                                if isinstance(a_.value, ast.Call) and isinstance(a_.value.func, ast.Name) and a_.value.func.id == 'dict':
+                                    kw.update({x.arg: x.value for x in a_.value.keywords if x.arg})
+                                elif isinstance(a_.value, ast.Dict):
+                                    kw.update({x.value: v_ for x, v_ in zip(a_.value.keys, a_.value.values) if isinstance(x, ast.Constant)})
                 if 'module' not in kw:
                     raise AnalysisError('%s: %s called without module=' % (q, norm(n.func)))
                 mr = F.resolve_expr(fi.module, kw['module'])
